@@ -70,7 +70,7 @@ def generate(seed: int, tier: str = "quick") -> dict:
     tr = common.draw_transport(r_sch, wire_len, spans, kinds=("file", "file", "socket"))
     if tr["kind"] == "socket":
         cfg["bufsize"] = r_sch.choice(sched.BUFSIZES)
-    cfg["handler_kind"] = r_cfg.choice(("function", "function", "method", "falsy_callable"))
+    cfg["handler_kind"] = r_cfg.choice(("function", "function", "method", "falsy_callable", "raise_once"))
     if r_cfg.random() < 0.5:
         # another reader with another policy / handler is alive while this one is read
         cfg["decoy"] = True
